@@ -149,7 +149,17 @@ def slices(rc):
             gens = c.generators if isinstance(c, (ast.DictComp, ast.ListComp, ast.SetComp, ast.GeneratorExp)) else []
             for g in gens:
                 src = g.iter.func.value if isinstance(g.iter, ast.Call) and call_name(g.iter) in ("items", "keys") and isinstance(g.iter.func, ast.Attribute) else g.iter
-                if not isinstance(src, ast.Name) or src.id not in tags:
+                def _direct_tag(e):
+                    if isinstance(e, ast.BoolOp) and isinstance(e.op, ast.Or) and e.values:
+                        e = e.values[0]
+                    if isinstance(e, ast.Call) and call_name(e) == "_get_evidence" and len(e.args) == 3 and isinstance(e.args[2], ast.Constant):
+                        return {e.args[2].value}
+                    return None
+                if isinstance(src, ast.Name) and src.id in tags:
+                    t_src, src_txt = tags[src.id], src.id
+                elif _direct_tag(src) is not None:
+                    t_src, src_txt = _direct_tag(src), norm(src, 60)
+                else:
                     continue
                 kv = g.target.elts[0] if isinstance(g.target, ast.Tuple) else g.target
                 for cond in g.ifs:
@@ -160,14 +170,14 @@ def slices(rc):
                     if K is None:
                         continue
                     n_sites += 1
-                    t = tags[src.id]
-                    rc.ob(f"{name}: `{norm(c, 90)}`: keys of `{src.id}` live in slice {sorted(t)}, filtered against the slice-{K} interface nodes")
+                    t = t_src
+                    rc.ob(f"{name}: `{norm(c, 90)}`: keys of `{src_txt}` live in slice {sorted(t)}, filtered against the slice-{K} interface nodes")
                     if t != {K}:
-                        rc.fail(f, c, f"DBNInference.{name}: `{src.id}` is evidence re-keyed to slice {sorted(t)} but is filtered by membership in interface_nodes_{K} (slice-{K} nodes): "
-                                "the filter never matches, so observed interface nodes are not carried over to the next time step", construct=f"{name} slice mismatch {src.id} vs interface_nodes_{K}")
+                        rc.fail(f, c, f"DBNInference.{name}: `{src_txt}` is evidence re-keyed to slice {sorted(t)} but is filtered by membership in interface_nodes_{K} (slice-{K} nodes): "
+                                "the filter never matches, so observed interface nodes are not carried over to the next time step", construct=f"{name} slice mismatch {src_txt} vs interface_nodes_{K}")
         # interface marginal of slice K is shifted to slice 1-K before it enters the next engine
         for K in (0, 1):
-            for n_, b in tm.find_all(f.node, f"_M = self._marginalize_factor(self.interface_nodes_{K}, _phi)"):
+            for n_, b in tm.find_all(f.node, f"_M = self._marginalize_factor(self.interface_nodes_{K}, __PHI)"):
                 sh = [bb for _, bb in tm.find_all(f.node, "_X = self._shift_factor(_M, __S)", {"_M": b["_M"]})]
                 for bb in sh:
                     n_sites += 1
@@ -176,6 +186,14 @@ def slices(rc):
                     if sv != 1 - K:
                         rc.fail(f, n_, f"DBNInference.{name}: the potential over the slice-{K} interface nodes must be shifted to slice {1 - K} before it is multiplied into the neighbouring step",
                                 construct=f"{name} interface shift {K}")
+            # the same pairing written without the intermediate name
+            for n_, bb in tm.find_all(f.node, f"self._shift_factor(self._marginalize_factor(self.interface_nodes_{K}, __PHI), __S)", nested=True):
+                n_sites += 1
+                sv = bb["__S"].value if isinstance(bb["__S"], ast.Constant) else None
+                rc.ob(f"{name}: marginal over the slice-{K} interface nodes shifted to slice {sv}")
+                if sv != 1 - K:
+                    rc.fail(f, n_, f"DBNInference.{name}: the potential over the slice-{K} interface nodes must be shifted to slice {1 - K} before it is multiplied into the neighbouring step",
+                            construct=f"{name} interface shift {K}")
     if n_sites < 3:
         raise AnalysisError(f"DBNInference: only {n_sites} slice-coordinate sites found")
 
